@@ -20,6 +20,51 @@ pub fn chunk_of(ents: &[u64; 64]) -> Chunk {
 	chunk
 }
 
+/// Field-sensitive mirrors of the index pages a column-level harness sets up: (table id, page number) -> 64 entries
+/// kept as 8 rows of 8 (CBMC keeps arrays of up to 64 elements element-wise; a 512-byte page is all-or-nothing, so
+/// entries read from the page itself are never constants for symbolic execution, even when every byte is concrete).
+pub const MP: usize = 3;
+pub static mut M_USED: [bool; MP] = [false; MP];
+pub static mut M_TABLE: [u16; MP] = [0; MP];
+pub static mut M_AT: [u64; MP] = [0; MP];
+pub static mut M_ENT: [[[u64; 8]; 8]; MP] = [[[0u64; 8]; 8]; MP];
+pub fn mirror_reset() { unsafe { let mut k = 0; while k < MP { M_USED[k] = false; let mut r = 0; while r < 8 { M_ENT[k][r] = [0u64; 8]; r += 1; } k += 1; } } }
+pub fn mirror_page(k: usize, table: TableId, at: u64) { unsafe { M_USED[k] = true; M_TABLE[k] = table.as_u16(); M_AT[k] = at; } }
+pub fn mirror_entry(k: usize, slot: usize, e: u64) { unsafe { M_ENT[k][slot / 8][slot % 8] = e; } }
+
+/// Contract-level model of IndexTable::find_entry for column-level harnesses (assume/guarantee, DESIGN 3.7): the first
+/// slot >= sub_index that is non-empty and whose stored partial key equals the key's, else (empty, 0). The C19 harnesses
+/// show that the real find_entry / find_entry_sse2 / find_entry_base refine this contract for index sizes >= 18 and
+/// return a superset of candidates for sizes 16-17 (callers filter candidates by the stored key tail, which stays real
+/// code in those harnesses). Entries are taken from the harness mirror of the page when one is registered for
+/// (table, page number) — and asserted equal to the bytes of the page actually passed in, so the mirror is checked by
+/// the solver, not trusted — otherwise from the page bytes.
+pub fn find_entry_contract(t: &IndexTable, key_prefix: u64, sub_index: usize, chunk: &Chunk) -> (Entry, usize) {
+	let bits = t.id.index_bits();
+	let want = Entry::extract_key(key_prefix, bits);
+	let at = t.chunk_index(key_prefix);
+	let mut m = MP;
+	let mut k = 0;
+	unsafe { while k < MP { if M_USED[k] && M_TABLE[k] == t.id.as_u16() && M_AT[k] == at { m = k; } k += 1; } }
+	let mut i = 0;
+	while i < CHUNK_ENTRIES {
+		let raw = if m < MP {
+			let v = unsafe { M_ENT[m][i / 8][i % 8] };
+			assert!(entry_at(chunk, i) == v, "harness mirror equals the index page searched");
+			v
+		} else { entry_at(chunk, i) };
+		if i >= sub_index {
+			let e = Entry::from_u64(raw);
+			if !e.is_empty() && e.partial_key(bits) == want { return (e, i) }
+		}
+		i += 1;
+	}
+	(Entry::empty(), 0)
+}
+
+pub fn entry_for(key_prefix: u64, address: u64, bits: u8) -> u64 { Entry::new(Address::from_u64(address), Entry::extract_key(key_prefix, bits), bits).as_u64() }
+pub fn chunk_index_of(t: &IndexTable, key_prefix: u64) -> u64 { t.chunk_index(key_prefix) }
+
 pub fn entry_at(chunk: &Chunk, i: usize) -> u64 {
 	u64::from_le_bytes([chunk.0[i * 8], chunk.0[i * 8 + 1], chunk.0[i * 8 + 2], chunk.0[i * 8 + 3], chunk.0[i * 8 + 4], chunk.0[i * 8 + 5], chunk.0[i * 8 + 6], chunk.0[i * 8 + 7]])
 }
